@@ -96,7 +96,9 @@ def ensure_mut():
         sh('git checkout -q --detach $(git -C /repo rev-parse HEAD) && git checkout -- . && git clean -fdq', cwd=repo)
     h = os.path.join(MUT, 'harness')
     shutil.rmtree(h, ignore_errors=True)
-    shutil.copytree(os.path.join(VERIF, 'harness'), h)
+    # a frozen copy of the harness (if present) lets a batch measure what the checks caught *before* later strengthening
+    src = os.environ.get('SEED_HARNESS') or ('/tmp/wt/harness_snapshot' if os.path.isdir('/tmp/wt/harness_snapshot') and not os.environ.get('SEED_LIVE') else os.path.join(VERIF, 'harness'))
+    shutil.copytree(src, h)
     t = open(os.path.join(h, 'Cargo.toml')).read().replace('path = "/repo"', f'path = "{repo}"')
     open(os.path.join(h, 'Cargo.toml'), 'w').write(t)
     return repo, h
